@@ -838,11 +838,8 @@ func (d *wsDriver) drain(wait time.Duration) {
 	}
 }
 
-var closedSubs sync.Map // key: driver pointer + sub
-
-func (d *wsDriver) closedKey(s int) string { return fmt.Sprintf("%p/%d", d, s) }
 func (d *wsDriver) isClosed(s int) bool {
-	_, ok := closedSubs.Load(d.closedKey(s))
+	_, ok := d.closedSubs.Load(s)
 	return ok
 }
 func (d *wsDriver) waitClosed(s int) bool {
@@ -861,13 +858,12 @@ func (d *wsDriver) startConsumer(s int, sub rpcbackend.Subscription) {
 		return
 	}
 	d.subObjs[s] = sub
-	key := d.closedKey(s)
 	ch := sub.Notifications()
 	go func() {
 		for n := range ch {
 			d.notifs <- notifEv{s: s, cur: n.CurrentSubID, res: n.Result}
 		}
-		closedSubs.Store(key, true)
+		d.closedSubs.Store(s, true)
 	}()
 }
 
